@@ -75,8 +75,14 @@ func (a *c43Store) Close() error                                 { return nil }
 func (c43Engine) Generate(seed uint64, tier string) *simrun.Case {
 	r := sim.NewRand(seed)
 	c := &simrun.Case{Prop: "C43", Engine: "grants-hist", Seed: seed, SchedSeed: sim.Mix(seed, 43), Knobs: map[string]int64{}}
+	c.Knobs["dsndb"] = int64(r.Intn(2)) // 1: the database-backed DSN service (with its DSN cache), 0: the file service held in memory
 	n := 10 + r.Intn(25)
 	for i := 0; i < n; i++ {
+		if r.Chance(1, 40) {
+			// the first DSN-level grant on the unrestricted DSN makes it a restricted one from then on
+			c.Ops = append(c.Ops, simrun.Op{K: "restrict"})
+			continue
+		}
 		u := int64(1 + r.Intn(2))
 		d := int64(0)
 		if r.Chance(1, 4) {
@@ -186,11 +192,15 @@ func (c43Engine) Execute(t *testing.T, c *simrun.Case, keepLog bool) *simrun.Out
 		}
 		auth.AuthService = store
 		svc, err := dsns.NewFileService("memory")
+		if c.Knob("dsndb", 0) == 1 {
+			svc, err = dsns.NewDatabaseService("sqlite3://" + filepath.Join(dir, "dsns.db"))
+		}
 		if err != nil {
 			herr = err.Error()
 			return
 		}
 		dsns.DSNService = svc
+		duRestricted := false
 		paths := map[string]string{}
 		for i, d := range c43DSNs {
 			path := filepath.Join(dir, d+".db")
@@ -378,8 +388,8 @@ func (c43Engine) Execute(t *testing.T, c *simrun.Case, keepLog bool) *simrun.Out
 						break
 					}
 					g := grants[k]
-					allowed := u == "admin" || d == "du" || (g != nil && (g[need] || g["admin"]))
-					restricted := d != "du"
+					restricted := d != "du" || duRestricted
+					allowed := u == "admin" || !restricted || (g != nil && (g[need] || g["admin"]))
 					switch {
 					case !allowed && ok2xx:
 						fail("allowed-without-grant", "op %d: %s (needs %s) by %s on restricted %s.%s succeeded with %d although the permission store records %v for that user, DSN and table", i, what, need, u, d, tb, st, g)
@@ -421,6 +431,21 @@ func (c43Engine) Execute(t *testing.T, c *simrun.Case, keepLog bool) *simrun.Out
 						out.Probe("tables_recreated", 1)
 					} else {
 						fail("create-refused", "op %d: the administrator's table create was answered %d: %.200s", i, st, resp)
+					}
+				case "restrict":
+					if !duRestricted {
+						// DSN-level access for both ordinary users, through the real service: the first grant marks the DSN restricted
+						for _, uu := range c43Users[1:] {
+							if err := svc.GrantDSN(1, uu, "du", dsns.DSNReadAction, true); err != nil {
+								herr = "GrantDSN: " + err.Error()
+							}
+							if err := svc.GrantDSN(1, uu, "du", dsns.DSNWriteAction, true); err != nil {
+								herr = "GrantDSN: " + err.Error()
+							}
+						}
+						duRestricted = true
+						hist = append(hist, "DSN-level grants on du: it is a restricted DSN from now on")
+						out.Probe("unrestricted_dsn_became_restricted", 1)
 					}
 				case "purge":
 					for _, cl := range []int{caches.DSNCache, caches.AuthCache, caches.SchemaCache} {
